@@ -170,13 +170,13 @@ Proof.
   destruct (matcher_run m (trie_of m) (domain_part m a) (path_part p) (map ascii_upper me) (a_websocket a))
     as [r0 v0|p'|hm wsm] eqn:E.
   - apply matcher_ok_sound in E. destruct E as (Hin & Ha & Hm & Hw).
-    destruct (r_alias r0 && m_redirect_defaults m); [discriminate|].
+    destruct (r_alias r0 && m_redirect_defaults m); [destruct (h_alias h m a (map ascii_upper me) r0 (dict_update v0 (r_defaults r0))); discriminate|].
     assert (Hfin : Match r0 (dict_update v0 (r_defaults r0)) = Match r vs ->
                    In r (m_rules m) /\ (exists v, admits m r (request_parts m a p) = ADirect rres v /\ vs = dict_update v (r_defaults r))
                    /\ rmethod_ok r (upper me) = true /\ r_websocket r = a_websocket a).
     { intro H. injection H as <- <-. repeat split; try assumption. exists v0. split; [exact Ha|reflexivity]. }
     destruct (m_redirect_defaults m); [|exact Hfin].
-    destruct (h_default h m a (map ascii_upper me) r0 (dict_update v0 (r_defaults r0))); [discriminate|exact Hfin].
+    destruct (h_default h m a (map ascii_upper me) r0 (dict_update v0 (r_defaults r0))) as [[u0|]| |]; try discriminate. exact Hfin.
   - discriminate.
   - destruct (negb (is_nil hm)); [discriminate|]. destruct wsm; discriminate.
 Qed.
@@ -188,8 +188,8 @@ Inductive redirect_reason (h : hooks) (m : rmap) (a : adapter) (p me u : str) : 
 | RR_builder r v :
     In r (m_rules m) -> admits m r (request_parts m a p) = ADirect rres v ->
     rmethod_ok r (upper me) = true -> r_websocket r = a_websocket a -> m_redirect_defaults m = true ->
-    (r_alias r = true /\ u = h_alias h m a (upper me) r (dict_update v (r_defaults r))
-     \/ h_default h m a (upper me) r (dict_update v (r_defaults r)) = Some u) ->
+    (r_alias r = true /\ h_alias h m a (upper me) r (dict_update v (r_defaults r)) = BOk u
+     \/ h_default h m a (upper me) r (dict_update v (r_defaults r)) = BOk (Some u)) ->
     redirect_reason h m a p me u.
 
 Theorem redirect_sound h m a p me u :
@@ -201,10 +201,11 @@ Proof.
   - apply matcher_ok_sound in E. destruct E as (Hin & Ha & Hm & Hw).
     destruct (r_alias r0) eqn:Eal; cbn [andb].
     + destruct (m_redirect_defaults m) eqn:Erd.
-      * intro H. injection H as <-. eapply RR_builder; eauto.
+      * destruct (h_alias h m a (map ascii_upper me) r0 (dict_update v0 (r_defaults r0))) as [u0| |] eqn:Eh; try discriminate.
+        intro H. injection H as <-. eapply RR_builder; eauto.
       * discriminate.
     + destruct (m_redirect_defaults m) eqn:Erd; [|discriminate].
-      destruct (h_default h m a (map ascii_upper me) r0 (dict_update v0 (r_defaults r0))) as [u0|] eqn:Ed; [|discriminate].
+      destruct (h_default h m a (map ascii_upper me) r0 (dict_update v0 (r_defaults r0))) as [[u0|]| |] eqn:Ed; try discriminate.
       intro H. injection H as <-. eapply RR_builder; eauto.
   - intro H. injection H as <-. apply matcher_path_sound in E. eapply RR_path; [exact E|reflexivity].
   - destruct (negb (is_nil hm)); [discriminate|]. destruct wsm; discriminate.
@@ -240,3 +241,195 @@ Lemma ex_redirect_3 :
 Proof. vm_compute. reflexivity. Qed.
 Lemma ex_notfound_9 : map_match no_hooks ex_map2 ex_adapter [47; 57] GET = NotFound.
 Proof. vm_compute. reflexivity. Qed.
+
+(* ================================================================== completeness *)
+(* r serves the request for the path parts P: its pattern admits P (directly or but for the trailing
+   slash), for the request method and protocol *)
+Definition serves (m : rmap) (meth : str) (ws : bool) (r : rule) (P : list str) : Prop :=
+  admits m r P <> ANo rres /\ rmethod_ok r meth = true /\ r_websocket r = ws.
+Definition wrong_method (m : rmap) (meth : str) (r : rule) (P : list str) : Prop :=
+  exists v, admits m r P = ADirect rres v /\ rmethod_ok r meth = false.
+Definition wrong_protocol (m : rmap) (meth : str) (ws : bool) (r : rule) (P : list str) : Prop :=
+  exists v, admits m r P = ADirect rres v /\ rmethod_ok r meth = true /\ r_websocket r <> ws.
+Definition rmethods_of (r : rule) : list str := methods_of rule rmethods r.
+(* merge_slashes is set at map level only (the C03 domain; per-rule settings: C12) *)
+Definition uniform_merge (m : rmap) : Prop := forall r, In r (m_rules m) -> rmerge m r = m_merge m.
+
+Section Classified.
+  Variables (m : rmap) (a : adapter) (p me : str).
+  Let P := request_parts m a p.
+  Let P' := merged_parts m a p.
+  Let meth := upper me.
+  Let ws := a_websocket a.
+  (* the path, or - with merge_slashes - the path with doubled slashes merged *)
+  Definition on_some_path (Q : list str -> Prop) : Prop := Q P \/ (m_merge m = true /\ Q P').
+  Definition nobody_serves : Prop :=
+    forall r, In r (m_rules m) -> ~ on_some_path (serves m meth ws r).
+
+  Inductive classified : outcome -> Prop :=
+  | CL_match r vs :
+      (exists r', In r' (m_rules m) /\ on_some_path (serves m meth ws r')) -> classified (Match r vs)
+  | CL_redirect u :
+      (exists r', In r' (m_rules m) /\ on_some_path (serves m meth ws r')) -> classified (RedirectTo u)
+  | CL_raised e :      (* the URL builder raised while canonicalising a match *)
+      (exists r', In r' (m_rules m) /\ on_some_path (serves m meth ws r')) -> classified (Raised e)
+  | CL_405 ms :
+      nobody_serves -> ms <> [] ->
+      (forall x, In x ms <-> exists r, In r (m_rules m) /\ on_some_path (wrong_method m meth r) /\ In x (rmethods_of r)) ->
+      classified (MethodNotAllowed ms)
+  | CL_ws :
+      nobody_serves ->
+      (forall r x, In r (m_rules m) -> on_some_path (wrong_method m meth r) -> ~ In x (rmethods_of r)) ->
+      (exists r, In r (m_rules m) /\ on_some_path (wrong_protocol m meth ws r)) ->
+      classified WsMismatch
+  | CL_404 :
+      nobody_serves ->
+      (forall r x, In r (m_rules m) -> on_some_path (wrong_method m meth r) -> ~ In x (rmethods_of r)) ->
+      (forall r, In r (m_rules m) -> ~ on_some_path (wrong_protocol m meth ws r)) ->
+      classified NotFound.
+End Classified.
+
+Lemma serves_of_direct m meth ws r P v :
+  admits m r P = ADirect rres v -> rmethod_ok r meth = true -> r_websocket r = ws -> serves m meth ws r P.
+Proof. intros Ha Hm Hw. split; [rewrite Ha; discriminate|split; assumption]. Qed.
+Lemma serves_of_slash m meth ws r P :
+  admits m r P = ASlash rres -> rmethod_ok r meth = true -> r_websocket r = ws -> serves m meth ws r P.
+Proof. intros Ha Hm Hw. split; [rewrite Ha; discriminate|split; assumption]. Qed.
+
+(* the fruitless first/second pass, in the vocabulary above *)
+Lemma pass_none m meth ws P hm wsm :
+  smatch dpart rule rres pmatch rmethods r_websocket (rstrict m) rconvert meth ws (trie_of m) P [] = (MNone rule rres, hm, wsm) ->
+  (forall r, In r (m_rules m) -> ~ serves m meth ws r P)
+  /\ (forall x, In x hm <-> exists r, In r (m_rules m) /\ wrong_method m meth r P /\ In x (rmethods_of r))
+  /\ (wsm = true <-> exists r, In r (m_rules m) /\ wrong_protocol m meth ws r P).
+Proof.
+  intro H. unfold trie_of in H.
+  destruct (root_none_char dpart rule rres pmatch dpart_eqb dpart_wlt rmethods r_websocket (rstrict m) rconvert rparts
+              dpart_eqb_eq _ _ _ _ _ _ H) as (H1 & H2 & H3).
+  split; [|split].
+  - intros r Hr (Ha & Hm & Hw). exact (H1 r Hr Ha Hm Hw).
+  - intro x. rewrite H2. split.
+    + intros (r & v & Hr & Ha & Hm & Hx). exists r. split; [exact Hr|]. split; [exists v; split; assumption|exact Hx].
+    + intros (r & Hr & (v & Ha & Hm) & Hx). exists r, v. auto.
+  - rewrite H3. split.
+    + intros (r & v & Hr & Ha & Hm & Hw). exists r. split; [exact Hr|]. exists v. auto.
+    + intros (r & Hr & (v & Ha & Hm & Hw)). exists r, v. auto.
+Qed.
+
+Lemma classify_nomatch m a p me hm wsm :
+  nobody_serves m a p me ->
+  (forall x, In x hm <-> exists r, In r (m_rules m) /\ on_some_path m a p (wrong_method m (upper me) r) /\ In x (rmethods_of r)) ->
+  (wsm = true <-> exists r, In r (m_rules m) /\ on_some_path m a p (wrong_protocol m (upper me) (a_websocket a) r)) ->
+  classified m a p me (if negb (is_nil hm) then MethodNotAllowed hm else if wsm then WsMismatch else NotFound).
+Proof.
+  intros Hn Hh Hw. destruct hm as [|x0 hm]; cbn [is_nil negb].
+  - assert (Hno : forall r x, In r (m_rules m) -> on_some_path m a p (wrong_method m (upper me) r) -> ~ In x (rmethods_of r)).
+    { intros r x Hr Hq Hx. apply (proj2 (Hh x)). exists r. auto. }
+    destruct wsm.
+    + apply CL_ws; [exact Hn|exact Hno|]. apply (proj1 Hw). reflexivity.
+    + apply CL_404; [exact Hn|exact Hno|]. intros r Hr Hq. assert (false = true) by (apply (proj2 Hw); exists r; auto). discriminate.
+  - apply CL_405; [exact Hn|discriminate|exact Hh].
+Qed.
+
+Theorem complete h m a p me : uniform_merge m -> classified m a p me (map_match h m a p me).
+Proof.
+  intro Hum. unfold map_match, adapter_match, matcher_run, matcher_match.
+  fold (upper me).
+  destruct (smatch _ _ _ _ _ _ _ _ _ _ (trie_of m) (domain_part m a :: split_slash (path_part p)) []) as [[x h1] w1] eqn:E1.
+  change (domain_part m a :: split_slash (path_part p)) with (request_parts m a p) in E1.
+  destruct x as [|r1 v1|].
+  - (* nothing on the path itself *)
+    destruct (pass_none _ _ _ _ _ _ E1) as (N1 & H1 & W1).
+    destruct (m_merge m) eqn:Em.
+    + destruct (smatch _ _ _ _ _ _ _ _ _ _ (trie_of m) (domain_part m a :: split_slash (merge_slashes (path_part p))) []) as [[x2 h2] w2] eqn:E2.
+      change (domain_part m a :: split_slash (merge_slashes (path_part p))) with (merged_parts m a p) in E2.
+      destruct x2 as [|r2 v2|].
+      * destruct (pass_none _ _ _ _ _ _ E2) as (N2 & H2 & W2).
+        apply classify_nomatch.
+        -- intros r Hr [Hs|[_ Hs]]; [exact (N1 r Hr Hs)|exact (N2 r Hr Hs)].
+        -- intro x. rewrite in_app_iff, H1, H2. unfold on_some_path. rewrite Em. split.
+           ++ intros [(r & Hr & Hq & Hx)|(r & Hr & Hq & Hx)]; exists r; auto.
+           ++ intros (r & Hr & [Hq|[_ Hq]] & Hx); [left|right]; exists r; auto.
+        -- unfold on_some_path. rewrite Em. split.
+           ++ intro Hw. apply orb_prop in Hw. destruct Hw as [Hw|Hw]; [apply W1 in Hw|apply W2 in Hw];
+                destruct Hw as (r & Hr & Hq); exists r; auto.
+           ++ intros (r & Hr & [Hq|[_ Hq]]); apply orb_true_iff; [left; apply W1|right; apply W2]; exists r; auto.
+      * unfold trie_of in E2.
+        destruct (root_found_sound dpart rule rres pmatch dpart_eqb dpart_wlt rmethods r_websocket (rstrict m) rconvert rparts
+                    dpart_eqb_eq _ _ _ _ _ _ _ _ E2) as (Hin & Ha & Hm & Hw).
+        rewrite (Hum r2 Hin), Em. apply CL_redirect. exists r2. split; [exact Hin|]. right. split; [exact Em|].
+        eapply serves_of_direct; eassumption.
+      * unfold trie_of in E2.
+        destruct (root_slash_sound dpart rule rres pmatch dpart_eqb dpart_wlt rmethods r_websocket (rstrict m) rconvert rparts
+                    dpart_eqb_eq _ _ _ _ _ _ E2) as (r & Hin & Ha & Hm & Hw).
+        apply CL_redirect. exists r. split; [exact Hin|]. right. split; [exact Em|]. eapply serves_of_slash; eassumption.
+    + apply classify_nomatch.
+      * intros r Hr [Hs|[Hc _]]; [exact (N1 r Hr Hs)|congruence].
+      * intro x. rewrite H1. unfold on_some_path. rewrite Em. split.
+        -- intros (r & Hr & Hq & Hx). exists r. auto.
+        -- intros (r & Hr & [Hq|[Hc _]] & Hx); [exists r; auto|congruence].
+      * rewrite W1. unfold on_some_path. rewrite Em. split.
+        -- intros (r & Hr & Hq). exists r. auto.
+        -- intros (r & Hr & [Hq|[Hc _]]); [exists r; auto|congruence].
+  - unfold trie_of in E1.
+    destruct (root_found_sound dpart rule rres pmatch dpart_eqb dpart_wlt rmethods r_websocket (rstrict m) rconvert rparts
+                dpart_eqb_eq _ _ _ _ _ _ _ _ E1) as (Hin & Ha & Hm & Hw).
+    assert (Hs : exists r', In r' (m_rules m) /\ on_some_path m a p (serves m (upper me) (a_websocket a) r')).
+    { exists r1. split; [exact Hin|]. left. eapply serves_of_direct; eassumption. }
+    destruct (r_alias r1 && m_redirect_defaults m).
+    { destruct (h_alias h m a (upper me) r1 (dict_update v1 (r_defaults r1))); [apply CL_redirect|apply CL_raised|apply CL_raised]; exact Hs. }
+    destruct (m_redirect_defaults m); [|apply CL_match; exact Hs].
+    destruct (h_default h m a (upper me) r1 (dict_update v1 (r_defaults r1))) as [[u0|]| |];
+      [apply CL_redirect|apply CL_match|apply CL_raised|apply CL_raised]; exact Hs.
+  - unfold trie_of in E1.
+    destruct (root_slash_sound dpart rule rres pmatch dpart_eqb dpart_wlt rmethods r_websocket (rstrict m) rconvert rparts
+                dpart_eqb_eq _ _ _ _ _ _ E1) as (r & Hin & Ha & Hm & Hw).
+    apply CL_redirect. exists r. split; [exact Hin|]. left. eapply serves_of_slash; eassumption.
+Qed.
+
+(* the statement in the property's words *)
+Corollary notfound_only_if_unserved h m a p me :
+  uniform_merge m -> map_match h m a p me = NotFound ->
+  forall r, In r (m_rules m) ->
+    ~ on_some_path m a p (serves m (upper me) (a_websocket a) r)
+    /\ (on_some_path m a p (wrong_method m (upper me) r) -> rmethods_of r = []).
+Proof.
+  intros Hum H r Hr. pose proof (complete h m a p me Hum) as C. rewrite H in C. inversion C as [| | | | |Hn Hno Hw]; subst.
+  split; [exact (Hn r Hr)|]. intro Hq. destruct (rmethods_of r) as [|x l] eqn:E; [reflexivity|].
+  exfalso. apply (Hno r x Hr Hq). rewrite E. left. reflexivity.
+Qed.
+
+Corollary method_not_allowed_iff h m a p me ms :
+  uniform_merge m ->
+  (map_match h m a p me = MethodNotAllowed ms ->
+     nobody_serves m a p me /\ ms <> []
+     /\ forall x, In x ms <-> exists r, In r (m_rules m) /\ on_some_path m a p (wrong_method m (upper me) r) /\ In x (rmethods_of r)).
+Proof.
+  intros Hum H. pose proof (complete h m a p me Hum) as C. rewrite H in C. inversion C; subst. auto.
+Qed.
+
+Corollary served_never_refused h m a p me r :
+  uniform_merge m -> In r (m_rules m) -> on_some_path m a p (serves m (upper me) (a_websocket a) r) ->
+  (exists r' vs, map_match h m a p me = Match r' vs) \/ (exists u, map_match h m a p me = RedirectTo u)
+  \/ (exists e, map_match h m a p me = Raised e).
+Proof.
+  intros Hum Hr Hs. pose proof (complete h m a p me Hum) as C.
+  destruct (map_match h m a p me) as [r' vs|u| |ms| |e] eqn:E.
+  - left. eauto.
+  - right. left. eauto.
+  - inversion C as [| | | | |Hn _ _]; subst. exfalso. exact (Hn r Hr Hs).
+  - inversion C as [| | |? Hn _ _| |]; subst. exfalso. exact (Hn r Hr Hs).
+  - inversion C as [| | | |Hn _ _|]; subst. exfalso. exact (Hn r Hr Hs).
+  - right. right. eauto.
+Qed.
+
+Lemma ex_uniform : uniform_merge ex_map /\ uniform_merge ex_map2.
+Proof. split; intros r Hr; cbn in Hr; repeat (destruct Hr as [<-|Hr]; [reflexivity|]); destruct Hr. Qed.
+
+(* Rule('/a', methods=[]) admits '/a' but lists no method: the answer is NotFound, not a 405 with an
+   empty Allow list (the reason why the 405 clause speaks of the listed methods) *)
+Definition ex_r4 : rule := mk_rule 0 [SLit [97]] None false (Some []).
+Lemma ex_empty_methods :
+  map_match no_hooks (mk_map [ex_r4]) ex_adapter [47; 97] GET = NotFound
+  /\ wrong_method (mk_map [ex_r4]) GET ex_r4 (request_parts (mk_map [ex_r4]) ex_adapter [47; 97]).
+Proof. split; [vm_compute; reflexivity|]. exists []. split; vm_compute; reflexivity. Qed.
